@@ -331,7 +331,8 @@ PROPS["C04"] = {
     "technique": "stateful property-based testing (rapidcheck) over real loopback TCP/TLS: generated server scripts and client configurations against a real QXmppClient; history invariant over the plaintext the scripted peer receives before its link is encrypted",
     "level_text": ("Generated scripts of up to 11 server actions (3 header shapes; features with any subset of starttls optional/required/absent, SASL mechanisms, SASL 2 with bind2/FAST/sm, iq-auth, bind, session, sm; <proceed/> followed by a real TLS handshake with a committed test certificate; <failure/>; SASL challenge/success/failure; legacy-auth field offers; six server IQs; <r/>; message; stream errors) "
                    "x client configurations (SASL, SASL 2, legacy auth on/off, PLAIN allowed, preferred mechanism, user agent, FAST token, extension set). Everything the peer reads before its socket is encrypted is searched for the planted password/token and their derivatives (base64, PLAIN message, XEP-0078 digest) and for SASL/SASL2 exchange elements, legacy-auth IQs, bind, and any iq/message/presence. "
-                   "A control arm with TLS merely enabled shows the classifier does see plaintext authentication (non-vacuity)."),
+                   "A third of the cases give the client two candidate addresses (what an SRV lookup or the built-in fall-back list yields); the first peer may drop the connection at any point (half of these cases: after the TLS upgrade, while the client authenticates) and the script goes on with the second peer, which may continue the authentication as if it had carried over; what either peer received in clear is judged. "
+                   "'Gives up and disconnects' is judged as soon as the script has made encryption impossible (no starttls offered, or <failure/>). A control arm with TLS merely enabled shows the classifier does see plaintext authentication (non-vacuity); labels sent-data-after-encryption / authenticated-after-encryption count the cases in which the real handshake completed."),
     "level_note": "Trusted: the scripted peer and plaintext classifier in harness/c04_tls.cpp, Qt's TLS stack (OpenSSL) with the throw-away key pair in fixtures/. Quiescence is detected by an idle window on socket activity; a slow machine can only shorten a script (fewer observations), never create a violation. Nonzas the statement does not name (<a/>, <r/>, csi, sm enable/resume) are not judged.",
     "rule": "Non-trivial: the script reaches an authentication-capable state (features with a mechanism / SASL 2 / iq-auth, or a version-less header) while the link is still unencrypted. Distinct = (script text, configuration).",
     "assumptions": ["after <proceed/> the peer speaks TLS (a clear-text element after <proceed/> is not a possible server behaviour)"],
